@@ -28,6 +28,39 @@ def _api_distribution(pid, tier):
     d["types"] = len(d["per_type"]); d["distinct_plans"] = len(plans)
     return d
 
+def _mut_distribution(pid, tier):
+    """stream (iii): decode-then-mutate histories by type, operation and source form (0 as given, 1 set tags stripped,
+    2 outer container indefinite), measured from the run's cases / impl files."""
+    root = os.path.dirname(os.path.dirname(os.path.abspath(__file__)))
+    d = {"histories": 0, "types": 0, "operations": 0, "by_source_form": {}, "skipped_source_not_decodable": 0,
+         "with_model_field_check": 0, "per_type": {}}
+    cp, ip = (os.path.join(root, "run", pid, tier, "gen", f) for f in ("cases.txt", "impl.txt"))
+    if not (os.path.exists(cp) and os.path.exists(ip)):
+        return d
+    impl = {}
+    for line in open(ip, errors="replace"):
+        i, _, r = line.rstrip("\n").partition(" ")
+        impl[i] = r
+    ops = set()
+    for line in open(cp, errors="replace"):
+        t = line.split(" ")
+        if len(t) < 7 or t[1] != "mut":
+            continue
+        r = impl.get(t[0], "")
+        d["histories"] += 1
+        d["by_source_form"][t[5]] = d["by_source_form"].get(t[5], 0) + 1
+        pt = d["per_type"].setdefault(t[2], {"histories": 0, "ops": []})
+        pt["histories"] += 1
+        if t[3] not in pt["ops"]:
+            pt["ops"].append(t[3])
+        ops.add((t[2], t[3]))
+        if r.startswith("skip"):
+            d["skipped_source_not_decodable"] += 1
+        if " f" in r and "=" in r:
+            d["with_model_field_check"] += 1
+    d["types"] = len(d["per_type"]); d["operations"] = len(ops)
+    return d
+
 # public types with to_bytes/from_bytes that have no schema (not covered by either stream)
 UNMODELLED = ["FixedTransaction", "FixedBlock", "FixedVersionedBlock", "FixedTransactionBody", "FixedTransactionBodies", "FixedTxWitnessesSet"
               " (original-bytes carriers: see C04)",
@@ -40,6 +73,7 @@ def _custom(pid, cfg, tier, seed):
     try:
         ev = json.load(open(ev_path))
         ev["coverage"]["api_stream_distribution"] = _api_distribution(pid, tier)
+        ev["coverage"]["mutation_stream_distribution"] = _mut_distribution(pid, tier)
         ev["coverage"]["unmodelled_types"] = UNMODELLED
         json.dump(ev, open(ev_path, "w"), indent=1)
     except Exception as e:          # evidence stays as written by the library
@@ -68,7 +102,8 @@ CFG = {
                   "Second differential stream in the other direction: ~125 types are built through constructors / setters / add / insert "
                   "(every presence subset, each optional collection absent / Some(empty) / non-empty, repeated and unsorted inserts, duplicate adds, "
                   "every new_* constructor), the library must decode its own bytes to an equal value and re-encode identically, and the model "
-                  "decoder must accept exactly these bytes and re-encode them identically.",
+                  "decoder must accept exactly these bytes and re-encode them identically. Third stream, histories: decode (from every wire form) -> one setter / add / insert "
+                  "-> encode -> decode, compared field by field through the public accessors and against the model.",
     "level_note": "Trusted: Coq kernel; the schemas in Ledger/Schemas.v as a description of the Rust types (tied by correspondence on the "
                   "generated cases only); the model decoder is the Rust decoder restricted to writer-produced encodings (any head width, "
                   "writer key order, definite containers except Plutus lists/long byte strings); extraction (ExtrOcamlBasic) and the OCaml/Rust glue. "
@@ -88,6 +123,12 @@ CFG = {
             "presence subset for <= 10 slots + all-absent/all-present/all-empty + one-hot + one-cold + random; seed = every nested choice), "
             "observes to_bytes / from_bytes / re-encoding / PartialEq / hex entry points; the Coq-extracted api_model_accepts decodes the "
             "library's bytes with the model and api_holds evaluates the round-trip statement (distribution in coverage.api_stream_distribution); "
+            "stream (iii): case `mut <Type> <op> <seed> <form> <source hex>` - a value DECODED from some wire form (model-written encodings of every "
+            "form a type has: legacy / map output, definite / indefinite lists, array / map redeemers, the three auxiliary-data formats, ...; the "
+            "library's own bytes of API-built values; re-framed variants with set tags stripped or the outer container indefinite) is mutated by one "
+            "setter / add / insert (35 types, 129 operations: set to another value, absent to present, present to empty, fresh and existing keys / items), "
+            "encoded, decoded again and compared field by field through the accessors, each rendered by its own stand-alone serialisation; the model "
+            "must accept the new bytes and find the setter's argument under the field's key (api_model_field); distribution in coverage.mutation_stream_distribution; "
             "non-trivial = distinct accepted encodings of >= 8 bytes",
     "trusted_base": [
         "Ledger/Schemas.v: wire shapes read from rust/src/serialization (model, not spec)",
